@@ -90,7 +90,7 @@ def _uses_whole(step, name, ctx, module) -> Optional[ast.AST]:
                 parent = getattr(node, "_parent", None)
                 # allowed partial uses
                 if isinstance(parent, ast.Attribute) and parent.value is node:
-                    if parent.attr in ("keys", "shape", "dtype", "names", "size", "ndim", "exponents", "allocation"):
+                    if parent.attr in ("keys", "shape", "dtype", "names", "size", "ndim", "exponents", "allocation", "fill"):
                         continue
                     if parent.attr == "values":
                         grand = getattr(parent, "_parent", None)
@@ -102,8 +102,8 @@ def _uses_whole(step, name, ctx, module) -> Optional[ast.AST]:
                                 continue
                             if isinstance(gg, ast.Subscript) and isinstance(gg.ctx, ast.Store):
                                 continue  # V.values[key][idx] = ...
-                        if isinstance(grand, ast.Attribute) and grand.attr == "ravel":
-                            continue  # V.values.ravel() handed to a raw writer (judged separately)
+                        if isinstance(grand, ast.Attribute) and grand.attr in ("ravel", "fill"):
+                            continue  # V.values.ravel() for a raw writer / V.values.fill(c): judged separately
                     return node
                 if isinstance(parent, ast.Subscript) and parent.value is node and isinstance(parent.ctx, ast.Store):
                     continue
@@ -237,6 +237,7 @@ def _initialised(ctx, module, path, alloc: _Alloc, upto: int):
     loops: Dict[int, dict] = {}
     stores = []
     raw_writer = None
+    whole_fill = False
     for idx in range(0, upto):
         step = path[idx]
         if step.kind == "iter" and isinstance(step.node, ast.For):
@@ -259,6 +260,21 @@ def _initialised(ctx, module, path, alloc: _Alloc, upto: int):
             for info in loops.values():
                 if info["iters"] and info["exit"] is None and _elem_of(key_exp, info["iter_text"]):
                     info["iters"][-1]["stored"] = True
+        # whole-buffer initialisers: V.values.fill(c), V.values[...] = c, V.values[:] = c, V.fill(c)
+        node = step.node
+        if step.kind == "stmt" and isinstance(node, ast.Assign) and isinstance(node.targets[0], ast.Subscript):
+            tgt = node.targets[0]
+            base = tgt.value.value if isinstance(tgt.value, ast.Attribute) and tgt.value.attr == "values" else tgt.value
+            whole = (isinstance(tgt.slice, ast.Constant) and tgt.slice.value is Ellipsis) or (
+                isinstance(tgt.slice, ast.Slice) and tgt.slice.lower is None and tgt.slice.upper is None and tgt.slice.step is None)
+            if whole and isinstance(base, ast.Name) and base.id == name:
+                whole_fill = True
+        if step.kind == "stmt" and isinstance(node, ast.Expr) and isinstance(node.value, ast.Call) \
+                and isinstance(node.value.func, ast.Attribute) and node.value.func.attr == "fill":
+            recv = node.value.func.value
+            base = recv.value if isinstance(recv, ast.Attribute) and recv.attr == "values" else recv
+            if isinstance(base, ast.Name) and base.id == name:
+                whole_fill = True
         for raw in step_exprs(step):
             for call in calls_in(raw):
                 cname = ctx.dotted(module, call.func)
@@ -266,6 +282,8 @@ def _initialised(ctx, module, path, alloc: _Alloc, upto: int):
                     dest = call.args[-1]
                     if name in {n.id for n in ast.walk(dest) if isinstance(n, ast.Name)}:
                         raw_writer = (cname, step, call)
+    if whole_fill:
+        return True, "the whole structured buffer is filled at once"
     if raw_writer is not None:
         cname, step, call = raw_writer
         if cname == CFROM:
